@@ -9,6 +9,8 @@ import (
 	"bytes"
 	"fmt"
 	"net"
+	"os"
+	"strconv"
 	"strings"
 	"sync"
 	"sync/atomic"
@@ -19,6 +21,7 @@ import (
 
 	gnet "github.com/panjf2000/gnet/v2"
 	"github.com/panjf2000/gnet/v2/verifx/fx"
+	"github.com/panjf2000/gnet/v2/verifx/lifex"
 	"github.com/panjf2000/gnet/v2/verifx/vstat"
 )
 
@@ -84,10 +87,10 @@ func (h *ucHandler) OnTraffic(c gnet.Conn) gnet.Action {
 	if c != st.gc {
 		h.failf("VERIF-KEY:life-identity conn%d: OnTraffic with a different Conn value than OnOpen saw", st.id)
 	}
-	atomic.AddInt32(&st.traffics, 1)
 	st.mu.Lock()
 	st.got = append(st.got, append([]byte(nil), b...))
 	st.mu.Unlock()
+	atomic.AddInt32(&st.traffics, 1) // after the record: the harness looks at the record as soon as the count moves
 	if bytes.HasPrefix(b, []byte("END:")) {
 		switch st.closeHow {
 		case "action":
@@ -134,6 +137,8 @@ func (c ucCase) String() string {
 }
 
 const ucBound = 8 * time.Second
+
+var lostInTransit int64 // datagrams that never reached the client socket (UDP loss before the socket), per process
 
 func runClientUDP(cs ucCase) (fails []string, infra string, reused int) {
 	h := &ucHandler{}
@@ -231,11 +236,38 @@ func runClientUDP(cs ucCase) (fails []string, infra string, reused int) {
 		for atomic.LoadInt32(&st.traffics) == before && time.Now().Before(dl) {
 			time.Sleep(100 * time.Microsecond)
 		}
-		st.mu.Lock()
-		ok := len(st.got) > 0 && bytes.Equal(st.got[len(st.got)-1], in)
-		st.mu.Unlock()
-		if !ok && !strings.HasPrefix(tag, "END") {
-			add("VERIF-KEY:udpc-read conn%d: the datagram the peer sent was not offered to its OnTraffic within %v", st.id, ucBound)
+		offered := func(b []byte) bool {
+			st.mu.Lock()
+			defer st.mu.Unlock()
+			for _, g := range st.got {
+				if bytes.Equal(g, b) {
+					return true
+				}
+			}
+			return false
+		}
+		if offered(in) || strings.HasPrefix(tag, "END") {
+			return
+		}
+		// Nothing within the bound. UDP may lose a datagram before it reaches the socket (not gnet's
+		// matter); a datagram that sits in the socket unread is. A second, different datagram tells the
+		// two apart: if the first one shows up now, it was there all along and only this event made
+		// the loop look.
+		diag := socketDiag(st.fd, st.local)
+		marker := []byte(fmt.Sprintf("%s:c%d:again", tag, st.id))
+		_, _ = peer.WriteToUDP(marker, la)
+		dl = time.Now().Add(ucBound)
+		for !offered(marker) && time.Now().Before(dl) {
+			time.Sleep(100 * time.Microsecond)
+		}
+		time.Sleep(5 * time.Millisecond)
+		switch {
+		case offered(in):
+			add("VERIF-KEY:udpc-read conn%d (fd %d, %s): the datagram %q the peer sent was not offered to OnTraffic for %v; it was offered only after a further datagram arrived (OnClose count %d; at the time: %s)", st.id, st.fd, st.local, in, ucBound, atomic.LoadInt32(&st.closes), diag)
+		case offered(marker):
+			lostInTransit++
+		default:
+			add("VERIF-KEY:udpc-read conn%d (fd %d, %s): neither the datagram %q nor a second one sent %v later was offered to OnTraffic (OnClose count %d)", st.id, st.fd, st.local, in, ucBound, atomic.LoadInt32(&st.closes))
 		}
 	}
 	// ---- wave 1 ----
@@ -404,4 +436,35 @@ func TestC04ClientUDP(t *testing.T) {
 			t.Fatalf("%s\ncase: %s", strings.Join(fails, "\n"), cs)
 		}
 	})
+	st.LabelN("datagrams_lost_before_reaching_the_socket_not_judged", lostInTransit)
+}
+
+// socketDiag: the kernel's view of a socket that seems to be ignored: its receive queue
+// (/proc/net/udp) and its entries in the epoll sets of the process.
+func socketDiag(fd int, local string) string {
+	var out []string
+	if i := strings.LastIndex(local, ":"); i >= 0 {
+		if port, err := strconv.Atoi(local[i+1:]); err == nil {
+			if b, err := os.ReadFile("/proc/net/udp"); err == nil {
+				hex := fmt.Sprintf(":%04X ", port)
+				for _, ln := range strings.Split(string(b), "\n") {
+					f := strings.Fields(ln)
+					if len(f) > 4 && strings.HasSuffix(f[1]+" ", hex) {
+						out = append(out, "udp "+f[1]+" -> "+f[2]+" tx:rx "+f[4])
+					}
+				}
+			}
+		}
+	}
+	for ino, ents := range lifex.PolledInodes() {
+		for _, e := range ents {
+			if strings.HasSuffix(e, fmt.Sprintf("tfd %d", fd)) {
+				out = append(out, fmt.Sprintf("%s (ino %d)", e, ino))
+			}
+		}
+	}
+	if b, err := os.ReadFile("/proc/self/fdinfo/" + strconv.Itoa(fd)); err == nil {
+		out = append(out, "fdinfo: "+strings.ReplaceAll(strings.TrimSpace(string(b)), "\n", " | "))
+	}
+	return strings.Join(out, "; ")
 }
